@@ -89,8 +89,17 @@ def close(a, b, tol=1e-9):
     return abs(a - b) <= tol * max(1.0, abs(a), abs(b))
 
 
+MUTATING_SEM = {"CvKnotRemove", "CvDegreeDecrease", "CvClean", "CvSetKnotvector"}
+PURE_SEM = {"CvJoin", "CvArith", "CvScalar"}
+
+
+def strip_curve(o):
+    return {"U": o["U"], "P": o["P"], "W": o["W"]}
+
+
 class Replayer:
-    def __init__(self, lib, mode="fraction"):
+    def __init__(self, lib, mode="fraction", validator=None):
+        self.validator = validator
         self.lib = lib
         self.mode = MODES[mode]()
         self.KnotVector = lib.KnotVector
@@ -292,6 +301,92 @@ class Replayer:
             return {"pieces": c.split()}
         return {"pieces": c.split(self.mode.nums(a["nodes"]))}
 
+    def tol_arg(self, tol):
+        if tol[0] == "default":
+            return {}
+        if tol[0] == "none":
+            return {"tolerance": None}
+        q = Fraction(tol[1], tol[2])
+        return {"tolerance": q if self.mode.exact else float(q)}
+
+    def curve_from(self, o):
+        return self.build_obj(dict(o, kind="cv"))
+
+    def do_CvSplitTake(self, live, a):
+        pieces = live[a["obj"]].split(self.mode.nums(a["nodes"]))
+        live[a["obj"]] = pieces[a["i"] - 1]
+        live["b"] = pieces[a["i"]]
+
+    def do_CvKnotRemove(self, live, a):
+        live[a["obj"]].knot_remove(self.mode.nums(a["nodes"]), **self.tol_arg(a["tol"]))
+
+    def do_CvDegreeDecrease(self, live, a):
+        c = live[a["obj"]]
+        if a.get("form") == "setter":
+            c.degree = c.degree - a["times"]
+        else:
+            c.degree_decrease(a["times"], **self.tol_arg(a["tol"]))
+
+    def do_CvClean(self, live, a):
+        c = live[a["obj"]]
+        {"knot": c.knot_clean, "degree": c.degree_clean, "all": c.clean}[a["which"]]()
+
+    def do_CvJoin(self, live, a):
+        A = live[a["obj"]]
+        B = self.curve_from(a["other"])
+        snapB = self.project(B)
+        r = A | B
+        return {"curve": r, "other_unchanged": self.project(B) == snapB}
+
+    def do_CvArith(self, live, a):
+        A = live[a["obj"]]
+        B = self.curve_from(a["other"])
+        snapB = self.project(B)
+        op = a["op"]
+        if op == "add":
+            r = A + B
+        elif op == "sub":
+            r = A - B
+        elif op == "mul":
+            r = A * B
+        elif op == "div":
+            r = A / B
+        else:
+            raise core.MachineryError(f"unknown op {op}")
+        return {"curve": r, "other_unchanged": self.project(B) == snapB}
+
+    def do_CvScalar(self, live, a):
+        A = live[a["obj"]]
+        op = a["op"]
+        s = None if op == "neg" else self.mode.num(a["s"])
+        r = {"s+A": lambda: s + A, "A+s": lambda: A + s, "s-A": lambda: s - A, "A-s": lambda: A - s,
+             "s*A": lambda: s * A, "A*s": lambda: A * s, "A/s": lambda: A / s, "s/A": lambda: s / A,
+             "neg": lambda: -A}[op]()
+        return {"curve": r}
+
+    def do_CvEq(self, live, a):
+        A = live[a["obj"]]
+        if not a["other"]["U"]:
+            others = [1, "curve", None, (0, 1), A.knotvector]
+            return {"eq": [A == o for o in others], "ne": [A != o for o in others], "sym": []}
+        B = self.curve_from(a["other"])
+        snapB = self.project(B)
+        return {"eq": [A == B], "ne": [A != B], "sym": [B == A], "other_unchanged": self.project(B) == snapB}
+
+    def do_CvCopy(self, live, a):
+        import copy
+        c = live[a["obj"]]
+        return {"copies": [copy.copy(c), copy.deepcopy(c)]}
+
+    def do_CvFraction(self, live, a):
+        return {"parts": live[a["obj"]].fraction()}
+
+    def do_CvSetCtrlpoints(self, live, a):
+        live[a["obj"]].ctrlpoints = self.mode.nums(a["points"])
+
+    def do_CvSetKnotvector(self, live, a):
+        live[a["obj"]].knotvector = self.mode.nums(a["kv"])
+
     # ---------------------------------------------------------------- comparison
     def compare(self, live, t, cls, val, exc):
         """returns list of failure descriptions (empty = conforms)"""
@@ -299,8 +394,18 @@ class Replayer:
         act, ret = t["act"], t["ret"]
         if not class_matches(ret["class"], cls):
             fails.append(f"outcome: spec {ret['class']}, code {cls}" + (f" ({type(exc).__name__}: {exc})" if exc else ""))
+        sem = ret.get("rel") == "sem"
+        target = act.get("obj")
         # whole abstract state after the step (on refusal the spec's post-state is the pre-state)
         for name, want in t["post"].items():
+            if sem and name == target and act["name"] in MUTATING_SEM:
+                if cls != "ok":  # a refusal must leave the object exactly as it was
+                    try:
+                        if not self.same_obj(self.project(live.get(name)), t["pre"][name]):
+                            fails.append(f"state[{name}] after a refused call differs from the state before")
+                    except TypeError as e:
+                        fails.append(f"state[{name}]: inexact number in exact mode: {e}")
+                continue  # judged by Trace.tla from the emitted event
             try:
                 got = self.project(live.get(name))
             except TypeError as e:
@@ -309,15 +414,108 @@ class Replayer:
             if not self.same_obj(got, want):
                 what = "after a refused call" if cls != "ok" else "after the call"
                 fails.append(f"state[{name}] {what}: got {got}, spec {want}")
-        if cls == "ok" and ret["class"] == "ok":
+        if cls == "ok" and ret["class"] in ("ok", "any"):
             h = getattr(self, "cmp_" + act["name"], None)
             if h is not None:
                 fails += h(live, t, val) or []
+        if sem and self.validator is not None and not any(f.startswith("state[") for f in fails):
+            self.emit(t, live, cls, val, fails)
         # observations (queries) on every object of the post state
         if not fails:
             for name, obs in t.get("obs", {}).items():
                 fails += self.check_obs(live.get(name), obs, t["post"][name])
         return fails
+
+    def emit(self, t, live, cls, val, fails):
+        """send the observed outcome of a relationally specified action to Trace.tla"""
+        a = t["act"]
+        name = a["name"]
+        c = strip_curve(t["pre"][a["obj"]])
+        b = strip_curve(a["other"]) if isinstance(a.get("other"), dict) else None
+        d = None
+        try:
+            if name in MUTATING_SEM:
+                d = strip_curve(self.project(live[a["obj"]]))
+            elif cls == "ok":
+                d = strip_curve(self.project(val["curve"]))
+        except TypeError as e:
+            fails.append(f"result: inexact number from exact data: {e}")
+            return
+        except Exception as e:
+            fails.append(f"result: cannot be read back: {type(e).__name__}: {e}")
+            return
+        if d is not None and d["P"] is None:
+            fails.append("result: curve without control points")
+            return
+        act = {k: v for k, v in a.items() if k not in ("obj", "other", "form")}
+        self.validator.add(act, c=c, b=b, d=d, cls=cls, tag=t)
+
+    def cmp_CvJoin(self, live, t, val):
+        f = []
+        if not val["other_unchanged"]:
+            f.append("right operand modified")
+        if t["ret"].get("rel") == "exact":
+            try:
+                got = self.project(val["curve"])
+            except TypeError as e:
+                return f + [f"result: inexact number: {e}"]
+            if not self.same_obj(got, dict(t["ret"]["val"], kind="cv")):
+                f.append(f"result: got {got}, spec {t['ret']['val']}")
+        return f
+
+    def cmp_CvArith(self, live, t, val):
+        return [] if val["other_unchanged"] else ["right operand modified"]
+
+    def cmp_CvEq(self, live, t, val):
+        f = []
+        want = t["ret"]["val"]
+        for e in val["eq"]:
+            if bool(e) != want:
+                f.append(f"A == B: got {e}, spec {want}")
+        for e in val["ne"]:
+            if bool(e) != (not want):
+                f.append(f"A != B: got {e}, spec {not want}")
+        for e in val["sym"]:
+            if bool(e) != want:
+                f.append(f"B == A: got {e}, spec {want} (symmetry)")
+        if val.get("other_unchanged") is False:
+            f.append("right operand modified")
+        return f
+
+    def cmp_CvCopy(self, live, t, val):
+        f = []
+        c = live[t["act"]["obj"]]
+        want = t["ret"]["val"]
+        for cp in val["copies"]:
+            if cp is c:
+                f.append("copy is the same object")
+                continue
+            if not self.same_obj(self.project(cp), want):
+                f.append("copy differs from the original")
+                continue
+            lo, hi = cp.knotvector.limits
+            try:
+                cp.knot_insert([(lo + hi) / 2])
+                cp.ctrlpoints = [2 * p + 1 for p in cp.ctrlpoints]
+                cp.knotvector.shift(1)
+            except Exception as e:
+                f.append(f"mutating the copy raised {type(e).__name__}: {e}")
+            if not self.same_obj(self.project(c), want):
+                f.append("mutating the copy changed the original")
+        return f
+
+    def cmp_CvFraction(self, live, t, val):
+        want = t["ret"]["val"]
+        num, den = val["parts"]
+        f = []
+        if not self.same_obj(self.project(num), dict(want[0], kind="cv")):
+            f.append(f"numerator: got {self.project(num)}, spec {want[0]}")
+        if len(want) == 1:
+            if den != 1:
+                f.append(f"denominator of a polynomial curve: got {den!r}, spec 1")
+        elif not self.same_obj(self.project(den), dict(want[1], kind="cv")):
+            f.append(f"denominator: got {self.project(den)}, spec {want[1]}")
+        return f
 
     def check_obs(self, obj, obs, want):
         fails = []
@@ -539,47 +737,106 @@ def state_key(heap, depth):
     return json.dumps([heap, depth], sort_keys=True)
 
 
-def replay_all(records, replayer, on_fail, *, sample=None, limit=None):
-    """Replay every logged transition on a live heap that reached its pre-state through real calls.
-
-    records: list of transition dicts.  on_fail(t, fails) is called for each non-conforming one.
-    Returns number of transitions executed and compared.
-    """
+def _paths(records):
     parent = {}
     for t in records:
         k = state_key(t["post"], t["d"])
         if k not in parent or (parent[k]["ret"]["class"] != "ok" and t["ret"]["class"] == "ok"):
             parent[k] = t
-    n = 0
-    for t in records:
-        if limit is not None and n >= limit:
-            break
-        # path from an initial state to t.pre
-        path = []
-        heap, d = t["pre"], t["d"] - 1
-        while d > 0:
-            p = parent.get(state_key(heap, d))
-            if p is None:
-                raise core.MachineryError("transition log has no path to a pre-state")
-            path.append(p)
-            heap, d = p["pre"], d - 1
-        live = replayer.build(heap)
+    return parent
+
+
+def _replay_one(t, parent, replayer):
+    # path from an initial state to t.pre
+    path = []
+    heap, d = t["pre"], t["d"] - 1
+    while d > 0:
+        p = parent.get(state_key(heap, d))
+        if p is None:
+            raise core.MachineryError("transition log has no path to a pre-state")
+        path.append(p)
+        heap, d = p["pre"], d - 1
+    live = replayer.build(heap)
+    saved = replayer.validator
+    replayer.validator = None  # the steps of the history are judged when they are the target
+    try:
         for p in reversed(path):
             replayer.execute(live, p["act"])
-        if path:
-            # the history must have led to t.pre (each step of it is itself compared as a transition);
-            # if it did not, start from a freshly built pre-state so that t is judged on its own
-            try:
-                intact = all(replayer.same_obj(replayer.project(live.get(k)), v) for k, v in t["pre"].items())
-            except TypeError:
-                intact = False
-            if not intact:
-                live = replayer.build(t["pre"])
-        cls, val, exc = replayer.execute(live, t["act"])
-        fails = replayer.compare(live, t, cls, val, exc)
-        n += 1
+    finally:
+        replayer.validator = saved
+    if path:
+        # the history must have led to t.pre (each step of it is itself compared as a transition);
+        # if it did not, start from a freshly built pre-state so that t is judged on its own
+        try:
+            intact = all(replayer.same_obj(replayer.project(live.get(k)), v) for k, v in t["pre"].items())
+        except TypeError:
+            intact = False
+        if not intact:
+            live = replayer.build(t["pre"])
+    cls, val, exc = replayer.execute(live, t["act"])
+    return replayer.compare(live, t, cls, val, exc)
+
+
+_W = {}
+
+
+def _worker(args):
+    lo, hi = args
+    from .trace import Validator
+
+    lib = core.import_lib()
+    val = Validator()
+    r = Replayer(lib, _W["mode"], validator=val)
+    recs, parent = _W["records"], _W["parent"]
+    out = []
+    for i in range(lo, hi):
+        fails = _replay_one(recs[i], parent, r)
         if fails:
-            on_fail(t, fails)
-        elif sample is not None:
-            sample(t)
+            out.append((i, fails))
+    return out, [(ev, tag) for ev, tag in val.events], hi - lo
+
+
+def replay_all(records, replayer, on_fail, *, sample=None, limit=None, nproc=None):
+    """Replay every logged transition on a live heap that reached its pre-state through real calls.
+
+    records: list of transition dicts.  on_fail(t, fails) is called for each non-conforming one.
+    Events for Binding B are appended to replayer.validator.  Runs in a pool of forked workers.
+    Returns number of transitions executed and compared.
+    """
+    import multiprocessing as mp
+
+    if limit is not None:
+        records = records[:limit]
+    parent = _paths(records)
+    nproc = nproc or core.WORKERS
+    n = 0
+    if len(records) < 200 or nproc <= 1:
+        for t in records:
+            fails = _replay_one(t, parent, replayer)
+            n += 1
+            if fails:
+                on_fail(t, fails)
+            elif sample is not None:
+                sample(t)
+        return n
+    _W.update(records=records, parent=parent, mode=replayer.mode.name)
+    size = max(20, len(records) // (nproc * 8))
+    chunks = [(i, min(i + size, len(records))) for i in range(0, len(records), size)]
+    ctx = mp.get_context("fork")
+    with ctx.Pool(nproc) as pool:
+        results = pool.map(_worker, chunks)
+    failed = set()
+    for out, events, k in results:
+        n += k
+        for i, fails in out:
+            failed.add(i)
+            on_fail(records[i], fails)
+        if replayer.validator is not None:
+            for ev, tag in events:
+                replayer.validator.add(ev["act"], c=ev["c"], b=ev["b"], d=ev["d"], cls=ev["cls"], tag=tag)
+    if sample is not None:
+        for i, t in enumerate(records[:50]):
+            if i not in failed:
+                sample(t)
+    _W.clear()
     return n
